@@ -1,8 +1,11 @@
 --------------------------- MODULE EmitNFPaths ---------------------------
 (* Writes the file-name cases of NeutralFile.tla (container / prefix settings x kinds of names) with the model's     *)
-(* verdict (does createFromNF look where dumpToNF wrote?) for the run against the real library.                       *)
+(* verdict (does createFromNF look where dumpToNF wrote?) for the run against the real library, and the sessions over  *)
+(* names that begin with the prefix (write distinct objects under x, Px, PPx, P, read each back under its own name).   *)
 EXTENDS NeutralFile, Json, IOUtils
-ASSUME JsonSerialize(IOEnv.OUT, PathCases)
+\* the law of the sessions over names that begin with the prefix holds on the model of buildFileName
+ASSUME PathSessionLaw
+ASSUME JsonSerialize(IOEnv.OUT, [cases |-> PathCases, sessions |-> PathSessions])
 VARIABLE x
 Spec == x = 0 /\ [][UNCHANGED x]_x
 =============================================================================
